@@ -6,6 +6,8 @@ script of server answers; the temp file's bytes and the bytes fed to the hasher 
 components, so "forgot to reset the hash" would be a different model, not an invisible one.
 -/
 import LfsModel.Download
+import LfsModel.DownloadAlt
+import LfsModel.DownloadConc
 
 namespace C02
 open Dl
@@ -73,5 +75,50 @@ example : (doTransfer (fun b => b) [1,2,3] 3 ⟨some [9], none⟩
     [{ status := 206, rangeStart := some (some 0), body := [7] }, { status := 200, body := [1,2,3] }]).1 = .ok := by decide
 example : (doTransfer (fun b => b) [1,2,3] 3 ⟨none, none⟩ [{ status := 200, body := [1,2,2] }]) =
     (.fail false false, ⟨some [1,2,2], none⟩) := by decide
+
+/-! ### the other adapters of the quantifier: custom / standalone, pure SSH -/
+
+/-- custom transfer agents (and the standalone `file://` agent): whatever the agent says — progress,
+    a wrong oid, an error, a file that is a prefix, padded, bit-flipped, another object, or nothing at
+    all — success ⇒ the final file hashes to the oid; failure ⇒ the final path is unchanged -/
+theorem custom_download_spec (oid : Bytes) (msgs : List DlAlt.Msg) (final : Option Bytes) :
+    ((DlAlt.customRun H oid msgs final).1 = .ok →
+        ∃ c, (DlAlt.customRun H oid msgs final).2 = some c ∧ H c = oid) ∧
+    ((DlAlt.customRun H oid msgs final).1 ≠ .ok → (DlAlt.customRun H oid msgs final).2 = final) :=
+  DlAlt.customRun_spec H oid msgs final
+
+/-- in particular a file made of the object followed by extra bytes is not accepted: the WHOLE file
+    the agent names is what gets hashed and what gets moved -/
+theorem custom_padded_file_refused (oid c pad : Bytes) (final : Option Bytes) (hpad : H (c ++ pad) ≠ oid) :
+    DlAlt.customRun H oid [.complete true false (some (c ++ pad))] final = (.fail false false, final) := by
+  simp [DlAlt.customRun, hpad]
+
+/-- pure SSH transfer: the same dichotomy for every answer of the server -/
+theorem ssh_download_spec (oid : Bytes) (r : DlAlt.SshResp) (final : Option Bytes) :
+    ((DlAlt.sshRun H oid r final).1 = .ok → ∃ c, (DlAlt.sshRun H oid r final).2 = some c ∧ H c = oid) ∧
+    ((DlAlt.sshRun H oid r final).1 ≠ .ok → (DlAlt.sshRun H oid r final).2 = final) :=
+  DlAlt.sshRun_spec H oid r final
+
+/-! ### 1..n concurrent processes fetching the same object -/
+
+/-- ANY number of processes, ANY schedule of their steps (private temp file each, the `.part` file and
+    the final path shared): in every reachable state the final path holds what it held at the start
+    or bytes that hash to the oid -/
+theorem concurrent_final_good (oid : Bytes) (part final : Option Bytes) (tr : List (Nat × DlConc.Act))
+    (s' : DlConc.St) (hr : DlConc.run H oid (DlConc.init part final) tr = some s') :
+    s'.final = final ∨ ∃ c, s'.final = some c ∧ H c = oid :=
+  (DlConc.run_good H oid final tr _ s' (DlConc.init_inv part final) (Or.inl rfl) hr).2
+
+/-- once a valid object is in place no process of any schedule ever replaces it by anything invalid -/
+theorem concurrent_valid_stays (oid : Bytes) (part : Option Bytes) (c : Bytes) (hc : H c = oid)
+    (tr : List (Nat × DlConc.Act)) (s' : DlConc.St)
+    (hr : DlConc.run H oid (DlConc.init part (some c)) tr = some s') :
+    ∃ c', s'.final = some c' ∧ H c' = oid :=
+  DlConc.run_keeps_valid H oid tr _ s' (DlConc.init_inv part (some c)) ⟨c, rfl, hc⟩ hr
+
+/-- non-vacuity: two processes, the second takes the first one's aborted `.part`, commits -/
+example : (DlConc.run (fun b => b) [1, 2] (DlConc.init none none)
+    [(0, .create), (0, .recv [1]), (1, .create), (0, .abort), (1, .takePart), (1, .load), (1, .recv [2]), (1, .commit)]).map (·.final)
+    = some (some [1, 2]) := by decide
 
 end C02
